@@ -42,6 +42,28 @@ Section Table.
               let (l, o'') := iter_nexts k' d o' in (x :: l, o'')
     end.
 
+  (* core::iter::Iterator::nth as the standard library provides it (the crate overrides none of the
+     provided methods): discard n items, stopping at the first None, then next().  fuel: one unit
+     per next(); exhausted only if fuel <= number of remaining items (excluded by nth_spec). *)
+  Fixpoint it_nth (fuel : nat) (n : N) (d : buf) (off : N) : option T * N :=
+    match fuel with
+    | O => (None, off)
+    | S f => match iter_next d off with
+             | (None, o') => (None, o')
+             | (Some a, o') => if n =? 0 then (Some a, o') else it_nth f (N.pred n) d o'
+             end
+    end.
+  (* by_ref().take(a): up to a items, stopping at the first None *)
+  Fixpoint it_take (fuel : nat) (a : N) (d : buf) (off : N) : list T * N :=
+    match fuel with
+    | O => ([], off)
+    | S f => if a =? 0 then ([], off) else
+             match iter_next d off with
+             | (None, o') => ([], o')
+             | (Some x, o') => let (l, o2) := it_take f (N.pred a) d o' in (x :: l, o2)
+             end
+    end.
+
   (* Iterator::find *)
   Fixpoint find_first (p : T -> bool) (l : list T) : option T :=
     match l with [] => None | x :: t => if p x then Some x else find_first p t end.
